@@ -181,6 +181,35 @@ func runC10(p *Prog, r *Report, tier string) {
 		r.Check(bad == "", "R-TIMER.entry-origin", fmt.Sprintf("%s: entry whose %s is written", fnKey(at), fn), p.instrPos(in), "a fresh &template{} or templatesMap[obsDomainID][templateID] of this call",
 			"the template entry comes from "+bad+": an entry that already carries a timer armed for other keys would be re-armed, and its callback expires the wrong template", true)
 	})
+	// a fresh entry replaces nothing: it is created and put into the map only on the miss edge of the lookup. Created for
+	// an id that IS stored (for whatever reason: "different definition", ...) it orphans the old entry's armed timer and
+	// gives the template a second one.
+	eachInstr(at, func(in ssa.Instruction) {
+		mu, ok := in.(*ssa.MapUpdate)
+		if !ok {
+			return
+		}
+		al, ok := stripChange(mu.Value).(*ssa.Alloc)
+		if !ok || typeName(al.Type()) != "pkg/collector.template" {
+			return
+		}
+		onMiss := false
+		for _, gd := range guardsOf(in.Block()) {
+			cond, succ := gd.If.Cond, gd.Succ
+			if u, ok := cond.(*ssa.UnOp); ok && u.Op == token.NOT {
+				cond, succ = u.X, 1-succ
+			}
+			if ex, ok := cond.(*ssa.Extract); ok && ex.Index == 1 && succ == 1 {
+				if lk, ok := ex.Tuple.(*ssa.Lookup); ok && lk.CommaOk {
+					if pf, i := paramIndex(p.origin(lk.Index)); pf == at && i == 2 {
+						onMiss = true
+					}
+				}
+			}
+		}
+		r.Check(onMiss, "R-TIMER.entry-on-miss", fnKey(at)+": a new template entry is stored only when none exists", p.instrPos(in), "dominated by the miss edge of templatesMap[obsDomainID][templateID]",
+			"a fresh entry can replace a stored one: the replaced entry's timer stays armed (an orphan that fires later) and the template gets a second timer - 'exactly one armed timer per stored template, none for removed ones' is lost", true)
+	})
 	if nEnt == 0 {
 		r.Undecided("R-TIMER.entry-origin", fnKey(at)+": stores to template.expiryTimer / expiryTime", p.pos(at.Pos()), "none found")
 	}
